@@ -38,3 +38,41 @@ private:
     T *m_p;
 };
 }
+
+// ---- painted `new` (sequential harnesses define VERIF_PAINT_NEW before including this header) ------------------------------
+// Every object the harness creates with new / make_unique / make_shared (and every node a standard container allocates) starts
+// out filled with `g_newFill` instead of ASan's constant 0xbe.  The byte is chosen from the text of the first line of the current
+// case (`paintLine`), so a case always runs with the same paint: shrinking and replaying stay deterministic.
+#ifdef VERIF_PAINT_NEW
+#include <cstdlib>
+namespace verif {
+inline unsigned char g_newFill = 0xbe;
+inline bool g_paintArmed = true;
+inline void paintLine(const std::string &line) {
+    if (line.find(" reset") != std::string::npos && line.size() < 16) { g_paintArmed = true; return; }
+    if (g_paintArmed) { g_newFill = paintFor(line); g_paintArmed = false; }
+}
+inline void *paintedAlloc(std::size_t n, std::size_t align) {
+    if (n == 0) n = 1;
+    void *p = nullptr;
+    if (align <= alignof(std::max_align_t)) p = std::malloc(n);
+    else if (posix_memalign(&p, align, n) != 0) p = nullptr;
+    if (!p) throw std::bad_alloc();
+    std::memset(p, g_newFill, n);
+    return p;
+}
+}
+void *operator new(std::size_t n) { return verif::paintedAlloc(n, 1); }
+void *operator new[](std::size_t n) { return verif::paintedAlloc(n, 1); }
+void *operator new(std::size_t n, std::align_val_t a) { return verif::paintedAlloc(n, (std::size_t) a); }
+void *operator new[](std::size_t n, std::align_val_t a) { return verif::paintedAlloc(n, (std::size_t) a); }
+void operator delete(void *p) noexcept { std::free(p); }
+void operator delete[](void *p) noexcept { std::free(p); }
+void operator delete(void *p, std::size_t) noexcept { std::free(p); }
+void operator delete[](void *p, std::size_t) noexcept { std::free(p); }
+void operator delete(void *p, std::align_val_t) noexcept { std::free(p); }
+void operator delete[](void *p, std::align_val_t) noexcept { std::free(p); }
+void operator delete(void *p, std::size_t, std::align_val_t) noexcept { std::free(p); }
+void operator delete[](void *p, std::size_t, std::align_val_t) noexcept { std::free(p); }
+#endif
+
